@@ -355,6 +355,28 @@ func lexClassOracle(expr string, initial []string) string {
 	return ""
 }
 
+// foreignToken returns the first token of the text that no class of the expression language admits: a symbol or
+// keyword outside the operator table, an Unknown token (a character the tokenizer has no state for), an empty word
+func foreignToken(expr string) string {
+	for _, t := range exprTokens(expr) {
+		switch t.Type() {
+		case tokenizers.Symbol, tokenizers.Keyword:
+			up := strings.ToUpper(t.Value())
+			if _, ok := opCodes[up]; !ok && up != "TRUE" && up != "FALSE" {
+				return t.Value()
+			}
+		case tokenizers.Whitespace, tokenizers.Comment, tokenizers.Integer, tokenizers.Float, tokenizers.Quoted:
+		case tokenizers.Word:
+			if t.Value() == "" {
+				return "\"\""
+			}
+		default:
+			return t.Value()
+		}
+	}
+	return ""
+}
+
 func typesOfInitial(initial []string) []int {
 	out := make([]int, len(initial))
 	for i, s := range initial {
@@ -380,6 +402,12 @@ func runParseCase(c *Ctx, expr string, label string) parseOut {
 	if o.status != "" {
 		c.fail(Failure{Kind: "oracle", Op: "expr " + strRunes(expr), Impl: impl, Note: fmt.Sprintf("SetExpression(%q) did not return normally: %s", expr, o.status)})
 		return o
+	}
+	if o.status == "" {
+		if bad := foreignToken(expr); bad != "" && !o.lexical {
+			c.fail(Failure{Kind: "oracle", Op: "expr " + strRunes(expr), Impl: o.implLine(), Note: fmt.Sprintf("the token %q is not a symbol of the expression language; the text must be rejected as such (UNKNOWN_SYMBOL), it was %s", bad, o.implLine())})
+			return o
+		}
 	}
 	if !o.lexical && o.status == "" {
 		if msg := lexClassOracle(expr, o.initial); msg != "" {
